@@ -641,6 +641,77 @@ func (c09) RunCase(c fw.Case, env *fw.Env) *fw.CaseResult {
 		liveIds = m.SortedIds()
 		liveMu.Unlock()
 	}
+	// ---- contested points: two clients write the SAME stored point at the same moment. Two updates of
+	// different fields: whichever order storage gives them, the point ends up with both fields. A
+	// delete and an update: whichever order, the point ends up deleted (an update skips an unknown id).
+	for round := 0; round < 8 && len(m.Docs) > 0; round++ {
+		ids := m.SortedIds()
+		pid := ids[g.R.IntN(len(ids))]
+		type wr struct {
+			upd []model.Point
+			del []uuid.UUID
+			err error
+		}
+		ws := []*wr{{upd: []model.Point{{Id: pid, Doc: model.Doc{fmt.Sprintf("cu_a%d", round): int64(round)}}}}, {upd: []model.Point{{Id: pid, Doc: model.Doc{fmt.Sprintf("cu_b%d", round): "b"}}}}}
+		if round%2 == 1 {
+			ws[g.R.IntN(2)] = &wr{del: []uuid.UUID{pid}}
+		}
+		// some company in each batch (own points of the other write stream are left alone)
+		for _, w := range ws {
+			if w.upd != nil {
+				for k := 0; k < g.R.IntN(4); k++ {
+					other := ids[g.R.IntN(len(ids))]
+					if other != pid {
+						w.upd = append(w.upd, model.Point{Id: other, Doc: model.Doc{"cu_note": int64(round)}})
+					}
+				}
+			}
+		}
+		var cw sync.WaitGroup
+		gate := make(chan struct{})
+		var dcall, dret int64
+		for _, w := range ws {
+			cw.Add(1)
+			go func(w *wr) {
+				defer cw.Done()
+				<-gate
+				if w.del != nil {
+					dcall = r.now()
+					_, w.err = s.Delete(w.del)
+					dret = r.now()
+				} else {
+					_, w.err = s.Update(w.upd)
+				}
+			}(w)
+		}
+		close(gate)
+		cw.Wait()
+		res.Stat("contested_point_rounds", 1)
+		res.Eval(true, "contested-point", round, round%2)
+		deleted := false
+		for _, w := range ws {
+			if w.err != nil {
+				res.Violate("outcome", "C09:contested-point-error:"+errClass(w.err), fmt.Sprintf("two concurrent batches on the stored point %s: one of them failed: %v", pid, w.err), nil)
+			}
+			if w.del != nil {
+				deleted = true
+			}
+		}
+		// the model: updates of points other than the contested one commute with everything here
+		for _, w := range ws {
+			if w.upd != nil {
+				m.Update(w.upd, 0)
+			}
+		}
+		if deleted {
+			m.Delete([]uuid.UUID{pid})
+			r.commits.Add(1)
+			r.record(c09Event{client: 300, in: c09Op{kind: "delete", key: pid.String()}, call: dcall, ret: dret})
+			liveMu.Lock()
+			liveIds = m.SortedIds()
+			liveMu.Unlock()
+		}
+	}
 	// let the searchers overlap the tail, then stop them
 	time.Sleep(20 * time.Millisecond)
 	close(stop)
@@ -832,15 +903,29 @@ func c09Forced(r *c09run, px *proxy.Proxy, g *gen.G, m *model.Model, nextVer fun
 				<-resume
 			}
 		}
-		var wg sync.WaitGroup
-		wg.Add(1)
-		go func() { defer wg.Done(); search(1, vq()) }()
-		<-started
-		px.AfterReadTx = nil
 		op := mkBatch()
 		if round%3 == 2 {
 			op = mkDelete()
 		}
+		// the paused search looks exactly where the batch is going to write: at the vector of a point
+		// the batch inserts, rewrites or deletes (a search whose cache is ahead of its snapshot meets
+		// nodes there whose points its snapshot does not have, or the other way round)
+		q1 := vq()
+		var target model.Doc
+		if len(op.Points) > 0 {
+			target = op.Points[g.R.IntN(len(op.Points))].Doc
+		} else if len(op.Ids) > 0 {
+			target = m.Docs[op.Ids[g.R.IntN(len(op.Ids))]]
+		}
+		if v, ok := model.AsVector(target, "vec"); ok && len(v) == 6 {
+			q1.VectorVamana.Vector = append([]float32{}, v...)
+			res.Stat("forced_searches_aimed_at_the_batch", 1)
+		}
+		var wg sync.WaitGroup
+		wg.Add(1)
+		go func() { defer wg.Done(); search(1, q1) }()
+		<-started
+		px.AfterReadTx = nil
 		var ok bool
 		var out opOutcome
 		var call, ret int64
